@@ -139,14 +139,14 @@ fn authorize_partial(req: &J) -> J {
 fn tpe_views(req: &J) -> J {
     use cedar_policy::{EntityId, PartialEntities, PartialEntityUid, PartialRequest, PolicyId, Schema};
     let (schema, _) = match Schema::from_cedarschema_str(
-        "entity G; entity P in [G] { n: Long }; entity R; action a appliesTo { principal: P, resource: R };",
+        "entity G; entity P in [G] { n: Long, r: { x?: Long } }; entity R; action a appliesTo { principal: P, resource: R };",
     ) {
         Ok(s) => s,
         Err(e) => return json!({"input_error": e.to_string()}),
     };
     let entities = match Entities::from_json_value(
         json!([
-            {"uid": {"type": "P", "id": "p"}, "attrs": {"n": 1}, "parents": []},
+            {"uid": {"type": "P", "id": "p"}, "attrs": {"n": 1, "r": {}}, "parents": []},
             {"uid": {"type": "R", "id": "r"}, "attrs": {}, "parents": []},
         ]),
         Some(&schema),
@@ -209,20 +209,43 @@ fn tpe_views(req: &J) -> J {
         Some(&schema),
     )
     .unwrap();
+    let summarize = |r: &cedar_policy::Response| -> J {
+        let mut rs: Vec<String> = r.diagnostics().reason().map(|p| p.to_string()).collect();
+        rs.sort();
+        let mut es: Vec<String> = r
+            .diagnostics()
+            .errors()
+            .map(|e| match e {
+                cedar_policy::AuthorizationError::PolicyEvaluationError(pe) => pe.policy_id().to_string(),
+            })
+            .collect();
+        es.sort();
+        json!({"decision": format!("{:?}", r.decision()), "reasons": rs, "errors": es})
+    };
     let re = match resp.reauthorize(&creq, &entities) {
-        Ok(r) => {
-            let mut rs: Vec<String> = r.diagnostics().reason().map(|p| p.to_string()).collect();
-            rs.sort();
-            json!({"decision": format!("{:?}", r.decision()), "reasons": rs})
-        }
+        Ok(r) => summarize(&r),
         Err(e) => json!({"error": e.to_string()}),
     };
+    // a second consistent completion: a principal that has no entity in the store
+    let creq2 = Request::new(
+        r#"P::"absent""#.parse().unwrap(),
+        r#"Action::"a""#.parse().unwrap(),
+        r#"R::"r""#.parse().unwrap(),
+        Context::empty(),
+        Some(&schema),
+    )
+    .unwrap();
+    let re2 = match resp.reauthorize(&creq2, &entities) {
+        Ok(r) => summarize(&r),
+        Err(e) => json!({"error": e.to_string()}),
+    };
+    let scratch2 = summarize(&Authorizer::new().is_authorized(&creq2, &pset, &entities));
     // a concrete store that is NOT a completion of the partial one: P::"p" gets an ancestor the partial entity does not list
     let mut extra = J::Null;
     if req["extra_parent"].as_bool().unwrap_or(false) {
         let ents2 = Entities::from_json_value(
             json!([
-                {"uid": {"type": "P", "id": "p"}, "attrs": {"n": 1}, "parents": [{"type": "G", "id": "g"}]},
+                {"uid": {"type": "P", "id": "p"}, "attrs": {"n": 1, "r": {}}, "parents": [{"type": "G", "id": "g"}]},
                 {"uid": {"type": "G", "id": "g"}, "attrs": {}, "parents": []},
                 {"uid": {"type": "R", "id": "r"}, "attrs": {}, "parents": []},
             ]),
@@ -237,8 +260,6 @@ fn tpe_views(req: &J) -> J {
         };
     }
     let scratch = Authorizer::new().is_authorized(&creq, &pset, &entities);
-    let mut srs: Vec<String> = scratch.diagnostics().reason().map(|p| p.to_string()).collect();
-    srs.sort();
     json!({
         "decision": resp.decision().map(|d| format!("{d:?}")),
         "reason": reason,
@@ -253,7 +274,9 @@ fn tpe_views(req: &J) -> J {
         "residual_forbids": ids(resp.residual_forbids().map(|p| p.to_string()).collect()),
         "reauthorize": re,
         "reauthorize_extra_parent": extra,
-        "from_scratch": {"decision": format!("{:?}", scratch.decision()), "reasons": srs},
+        "from_scratch": summarize(&scratch),
+        "reauthorize_absent_principal": re2,
+        "from_scratch_absent_principal": scratch2,
     })
 }
 
